@@ -230,6 +230,20 @@ CHECKS = {
             'in get_context / render, and resources whose repr raises: page still 200 with the failure reported inline.',
             'Trusted: alphanumeric sentinels (raw, HTML-, JSON-, repr-escaped forms coincide).',
             'DESIGN.md section 5, C18'),
+    'C13': ('E1-product-enumerator',
+            'bounded-exhaustive enumeration of response kinds x methods x header sets under wsgiref.validate with '
+            'open-file tracking; all wrapper stacks x embedding x construction style; all reroute kinds x targets',
+            '(a) five application variants (plain, gzip, cache, debug, gzip+cache) x 15 paths (Response, streamed, '
+            'rendered, static file route/application incl. missing and escaping paths, slash redirect, 404/405/500, '
+            'meta HTML/JSON) x GET/HEAD/POST/OPTIONS x 7 header sets incl. conditional requests: validator clean, '
+            'start_response once, no HEAD body, every file opened through clastic.static closed after close(); (b) '
+            'every list of <=3 (thorough 4) wsgi_wrapper middlewares over {U1, U2, non-unique V} at the embedding and '
+            'embedded level, with routes given to the constructor or added later, plus sibling sub-applications and '
+            'route-level middlewares with own instances: observed order vs the merge rule; (c) RerouteWSGI raised / as '
+            'endpoint / raised in a middleware x 4 target behaviours x GET/POST/HEAD: environ entries intact, '
+            'status/headers/body verbatim.',
+            'Trusted: wsgiref.validate.validator; the seam on clastic.static.open.',
+            'DESIGN.md section 5, C13'),
 }
 
 NOT_YET = 'check not built yet in this revision of /verif (planned: bounded exhaustive exploration, see DESIGN.md section 5)'
